@@ -85,7 +85,7 @@ POOL = ["ret", "nop", "push rax", "clc", "nop2", "xor eax, eax", "push r8", "add
         "add qword [rax+rcx*4+0x12345], 0x12345678", "add qword [eax+ecx*4+0x12345], 0x12345678", "mov qword [eax+ecx*4+0x12345], 0x12345678",
         "mov qword [r8d+r9d*4+0x12345], 0x12345678", "imul r8, [r8d+r9d*4+0x12345], 0x12345678", "add qword [r8d+r9d*4+0x12345], 0x12345678",
         "vpaddb ymm1, ymm2, ymm3", "vperm2i128 ymm1, ymm2, [rax+rcx*4+0x12345], 0x5", "paddb xmm1, xmm2", "mulx r8, r9, [rsi]", "cmovne rax, r11",
-        "shl rax, 0x5", "movq xmm1, rax", "jmp 0x4", "jne -0x1000", "call rax", "push 0x5", "imul rax, rcx, 0x5", "setc al", "bzhi rax, rcx, rdx",
+        "shl rax, 0x5", "movq xmm1, rax", "jmp 0x4", "jne -0x1000", "call rax", "push 0x5", "call 0x100", "jmp long 0x10", "jne 0x10", "jrcxz 0x5", "xbegin 0x10", "jmp [rax]", "imul rax, rcx, 0x5", "setc al", "bzhi rax, rcx, rdx",
         # literals beyond 64 bits (accepted and clamped by the library: whatever they do, they must not influence later lines or calls)
         "add rcx, 0x1ffffffffffffffff", "push 99999999999999999999999", "mov rax, [rbx+0x10000000000000000]",
         # displacements wider than 32 bits (accepted and truncated by the library: whatever they do, no write may leave the buffer)
@@ -654,6 +654,7 @@ def run(prop, tier, replay=None):
         if prop == "C14":
             scripts += [x for x in c13_boundary(L, rnd, tier) if x.sid.startswith(("C13-g", "C13-q"))]
         if prop == "C14":
+            scripts += c14_edge(L, rnd, tier)
             scripts += [x for x in c19_scripts(L, rnd, tier) if x.sid.startswith("C19-end")]     # the file counting entry point at the end of the capacity
         if prop == "C15":
             scripts += [x for x in c13_boundary(L, rnd, tier) if x.sid.startswith("C13-qo")]
@@ -661,6 +662,8 @@ def run(prop, tier, replay=None):
             scripts += c07_boundary(L, rnd, tier)
         if prop in ("C15", "C13"):
             scripts += c15_directed(L, rnd, tier)
+        if prop == "C15":
+            scripts += [x for x in c19_scripts(L, rnd, tier) if x.sid.startswith("C19-emp")]      # file calls whose result must not depend on earlier file calls
         if prop == "C19":
             scripts += c19_scripts(L, rnd, tier)
     results = execute(scripts, L)
@@ -1151,6 +1154,40 @@ def settings_stage(tier, rnd, replay=None):
     return out, judged, len(results)
 
 
+def c14_edge(L, rnd, tier):
+    """every kind of instruction the pool has (branches of every form among them) placed so that it ends exactly ON a chunk end, one byte
+    before it and one byte beyond it, counted with that chunk size: what is counted depends on positions and lengths only"""
+    out, n = [], 0
+    nops = {k: next(x for x in v if L.text[x].startswith("nop") or L.text[x] in ("ret", "clc")) for k, v in L.bylen.items()
+            if any(L.text[x].startswith("nop") or L.text[x] in ("ret", "clc") for x in v)}
+    k3 = L.bylen[3][0]
+
+    def fill(total):
+        keys = []
+        while total > 0:
+            step = max(k for k in nops if k <= total)
+            keys.append(nops[step]); total -= step
+        return keys
+    allkeys = sorted({ks[i] for ln, ks in L.bylen.items() if 1 <= ln <= 17 for i in range(len(ks))})
+    for c in (8, 16, 32, 64):
+        for key in allkeys:
+            ln = len(L.codes[key][0])
+            if ln >= c:
+                continue
+            if tier == "quick" and zlib.crc32(("%d:%s" % (c, key)).encode()) % 3 and not any(w in L.text[key] for w in ("j", "call", "xbegin")):
+                continue
+            for d in (0, -1, 1):
+                pre = 2 * c - ln + d           # the instruction ends at 2c + d
+                if pre < 0:
+                    continue
+                sc = Script("C14-e%d" % n); n += 1
+                sc.create(1, "ext", 400)
+                keys = fill(pre) + [key, k3]
+                sc.asm(1, keys, [L.text[x] for x in keys], count=c, eol="\n")
+                out.append(sc)
+    return out
+
+
 def c15_directed(L, rnd, tier):
     """histories that end in a chunk-fitting call which HAS to pad (so that a lost or stale mode / chunk size shows in the bytes),
     compared with a fresh twin: fitting switched off and on again, other sizes in between, counting calls (succeeding, failing,
@@ -1397,6 +1434,25 @@ def c19_scripts(L, rnd, tier):
         sc.create(1, "ext", 200)
         sc.asm_file(1, [L.bylen[3][0]], pct, count=cnt)
         out.append(sc)
+    # an empty file behind earlier file calls on small files (what the reader allocates for it is recycled memory by then)
+    fempty = os.path.join(d, "empty0.asm"); open(fempty, "w").close()
+    ftiny = os.path.join(d, "tiny1.asm"); open(ftiny, "w").write(L.text[L.bylen[1][0]] + "\n")
+    for hist in ("tiny", "tiny-count", "missing", "empty", "tiny-tiny"):
+        for cnt in (None, 8):
+            sc = Script("C19-emp%d" % n); n += 1
+            sc.create(1, "ext", 200)
+            for h in hist.split("-"):
+                if h == "tiny":
+                    sc.asm_file(1, [L.bylen[1][0]], ftiny, twin=False)
+                elif h == "count":
+                    sc.asm_file(1, [L.bylen[1][0]], ftiny, count=8, twin=False)
+                elif h == "missing":
+                    sc.asm_file(1, [], os.path.join(d, "does-not-exist.asm"), expectfail=True)
+                else:
+                    sc.asm_file(1, [], fempty, twin=False)
+            sc.asm_file(1, [], fempty, count=cnt, twin=False)
+            sc.asm(1, [L.bylen[3][0]], [L.text[L.bylen[3][0]]])
+            out.append(sc)
     # start offsets at the end of the capacity: within the last 20 bytes of a library-managed buffer (fresh and grown) it grows, on a caller
     # buffer a file without instructions needs no room
     k3 = L.bylen[3][0]
@@ -1565,14 +1621,14 @@ def run_c17(prop, tier, replay=None):
     scripts = list(base)
     for k, p in enumerate(sorted(points, key=lambda q: (q["s"], q["op"], q["call"], q["nth"]))):
         b = bysid[p["s"]]
-        sc = Script("%s+%s%d@%d" % (b.sid, p["call"], p["nth"], p["op"]))
+        sc = Script("%s+%s%d%s@%d" % (b.sid, p["call"], p["nth"], ("-%d" % p["nth2"]) if p.get("nth2") else "", p["op"]))
         # op index counts events; W lines produce no event
         evidx, lines, meta = 0, [b.lines[0]], []
         for ln, m in zip(b.lines[1:], b.meta):
             if m is not None:
                 evidx += 1
                 if evidx == p["op"]:
-                    lines.append("Z %s %d" % (p["call"], p["nth"])); meta.append({})
+                    lines.append("Z %s %d %d" % (p["call"], p["nth"], p.get("nth2", 0))); meta.append({})
             if ln.startswith("B "):
                 # every script writes its own output file (scripts run in parallel)
                 parts = ln.split()
@@ -1586,7 +1642,7 @@ def run_c17(prop, tier, replay=None):
                   extra_cov={"fault_points": len(points), "faults_fired": fired, "scenarios": [sc.sid for sc in base]},
                   level="fault_enumeration",
                   rule="Fault-free runs of the scenarios record, through link-time wrappers, every OS call the library makes per API call; TLC (spec/AsmFaults.tla) enumerates every single "
-                       "refusal of each of them (plus a short fwrite); each is replayed with exactly that call refused and the execution is judged by spec/ApiTrace.tla: documented failure "
+                       "refusal of each of them (plus a short fwrite, the EINTR flavour, a read that reports the end of the file early, and pairs: a failing write / read / mremap followed by a failing fclose / close / munmap in the same call); each is replayed with exactly that call refused and the execution is judged by spec/ApiTrace.tla: documented failure "
                        "value, no crash, earlier code intact, later calls and destroy still work, asm_create_bin_file succeeds only with a complete file. distinct_nontrivial = fault points "
                        "whose refusal actually fired.", nontrivial=fired)
 
